@@ -501,6 +501,10 @@ def check_smooth(rep):
                 raise AnalysisBroken("%s line %s: cannot decide whether %s is written for %s" % (sc.name, e["line"], e["target"], atoms))
             if x:
                 val = canon(sc.resolve(e["value"], atoms, orc))
+        if val is None:
+            src = getattr(sc.fo, "array_copies", {}).get("@" + YO.lstrip("@"))
+            if src is not None:
+                val = canon(el(src.lstrip("@"), idx))         # `@out = @in` before the loops: an element that is not rewritten keeps the input value
         return val
     res = {}
     for nm, idx, l_, want in (("interior", isym, lid, Q(1, 4) * pc(isym - 1) + Q(1, 2) * pc(isym) + Q(1, 4) * pc(isym + 1)),
@@ -543,6 +547,33 @@ def check_integrate(rep):
                   "table_integrate.pl (%s) recurrence is %s" % ("from right" if right else "from left", e["value"]), "%s:%s" % (sc.loc, e["line"]), sample=True)
     if seen != {True, False}:
         raise AnalysisBroken("table_integrate.pl: both integration directions expected, found %s" % seen)
+    # options that modify the integrand in place before the integration (help text: --with-S adds 2 kB T / r, --sphere multiplies by r^2): all points
+    pre = [e for e in sc.stores(Y) if sc.loop_of(e) is not None]
+    kinds = {}
+    for e in pre:
+        l_ = sc.loop_of(e)
+        isym_ = e["idx"][0]
+        b_ = sc.bounds(l_)
+        full = b_ is not None and ((b_[2] == 1 and b_[0] == 0 and is_last(b_[1], ro)) or (b_[2] == -1 and is_last(b_[0], ro) and b_[1] == 0))
+        v_ = e["value"]
+        inner_g = [g_ for g_ in PF.inner(e, l_)["guards"]]
+        if hasattr(v_, "free_symbols") and any("kbT" in str(x_) or "kBT" in str(x_) for x_ in v_.free_symbols):
+            kt = [x_ for x_ in v_.free_symbols if "kbT" in str(x_) or "kBT" in str(x_)][0]
+            okv = is_zero(v_ - (f_(isym_) + 2 * kt / r_(isym_)))
+            okg = len(inner_g) <= 1 and all(isinstance(g_[0], tuple) and g_[0][0] in (">", "!=") and g_[0][1] == r_(isym_) and g_[0][2] == 0 and g_[1] is True for g_ in inner_g)
+            kinds["with-S"] = (okv and okg and full, "f_i += 2 kT / r_i for every point with r_i > 0",
+                               "value %s under %s over %s" % (v_, [str(g_[0]) for g_ in inner_g], tuple(map(str, b_)) if b_ else "?"), e)
+        elif hasattr(v_, "free_symbols") and not sp.simplify(v_ / f_(isym_)).has(f_(isym_)):
+            kinds["sphere"] = (is_zero(v_ - f_(isym_) * r_(isym_) ** 2) and not inner_g and full, "f_i *= r_i^2 for every point",
+                               "f_i is multiplied by %s under %s over %s" % (sp.simplify(v_ / f_(isym_)), [str(g_[0]) for g_ in inner_g], tuple(map(str, b_)) if b_ else "?"), e)
+        else:
+            kinds["other#%s" % e["line"]] = (False, "a documented modification of the integrand", "the integrand is rewritten as %s" % v_, e)
+    for k_ in ("with-S", "sphere"):
+        if k_ not in kinds:
+            raise AnalysisBroken("table_integrate.pl: the in-place modification of the integrand for --%s was not found" % k_)
+    for k_, (ok_, want_, got_, e_) in sorted(kinds.items()):
+        rep.check(ok_, "R19.1", "integrate|option|" + k_, want_, "table_integrate.pl --%s: %s; the help text promises the term for the whole table (a skipped first or last point shifts the integral there)" % (k_, got_),
+                  "%s:%s" % (sc.loc, e_["line"]), sample=(k_ == "with-S"))
     start = {("last" if is_last(e["idx"][0], ro) else str(e["idx"][0])): e["value"] for e in sc.stores(YO) if sc.loop_of(e) is None and e["value"] == 0}
     rep.check(set(start) == {"0", "last"}, "R19.1", "integrate|origin", "integration constant: U = 0 at the starting end", "table_integrate.pl does not start from 0 at the chosen end (%s)" % start, sc.loc)
     passthrough(rep, sc, X, FL)
